@@ -143,4 +143,15 @@ TEXT = {
         "level_note": COMMON_NOTE + "Partial: filter_eq_ref not proved. Uses the verif_hooks bytes-per-unit override and pass counter.",
         "technique": "Lean 4 proof (pass planning) + differential correspondence with executable reference over all pass counts",
     },
+    "C03": {
+        "level_text": "Proved for every graph of the model: find_link is sound (the returned node's terminal k-mer on the reported side equals the "
+                      "queried k-mer, reverse-complemented iff flagged; arrival side = facing side for unflipped and same side for flipped links; "
+                      "flipped links only when unstranded), a k-mer is found as a node end exactly when some node starts/ends with it, and link "
+                      "lookups do not depend on extension bytes (so fix_exts' in-place update is order-independent). Symmetry, equality of the "
+                      "adjacency set with the (K+1)-mers of the reads, exactness of the three pruning functions, best-path and path-sequence "
+                      "clauses are evaluated as executable predicates on the crate's answers over pipeline graphs; max_path_beam is not modelled.",
+        "design_ref": "DESIGN.md section 6, C03",
+        "level_note": COMMON_NOTE + "Partial: pipeline-level clauses by execution.",
+        "technique": "Lean 4 proof (case analysis of link resolution) + differential correspondence with executable predicates",
+    },
 }
